@@ -17,6 +17,11 @@ SHAPES = {
     "open": [((1, 2), [("L", (4, 6)), ("C", (5, 8), (8, 8), (9, 3))])],
     "pill": [((2, 1), [("L", (6, 1)), ("A", 2, 2, 0, 0, 1, (8, 3)), ("L", (8, 7)), ("A", 2, 2, 0, 0, 1, (6, 9)),
                       ("L", (2, 9)), ("A", 2, 2, 0, 0, 1, (0, 7)), ("L", (0, 3)), ("A", 2, 2, 0, 0, 1, (2, 1)), ("Z",)])],
+    # decimal coordinates, outline closed by an explicit last segment back to the start (and then Z)
+    "triDec": [((F(11, 10), F(13, 10)), [("L", (F(62, 10), F(24, 10))), ("L", (F(33, 10), F(77, 10))),
+                                        ("L", (F(11, 10), F(13, 10))), ("Z",)])],
+    "curvyDec": [((F(101, 10), F(203, 10)), [("C", (F(101, 10), F(171, 10)), (F(152, 10), F(160, 10)), (F(163, 10), F(194, 10))),
+                                            ("Q", (F(181, 10), F(226, 10)), (F(101, 10), F(203, 10))), ("Z",)])],
     "zig": [((0, 5), [("L", (2, 1)), ("L", (4, 5)), ("L", (6, 1)), ("L", (8, 5)), ("L", (8, 7)), ("L", (0, 7)), ("Z",)])],
 }
 
@@ -130,7 +135,9 @@ def _rel_form(shape):
 def job(j):
     from picosvg.svg_reuse import affine_between
     from picosvg.svg_types import SVGPath
-    s1, s2, tol, expect, label = j
+    s1, s2, tol, expect, label = j[:5]
+    d1 = j[5] if len(j) > 5 else d_of(s1)
+    d2 = j[6] if len(j) > 6 else d_of(s2)
     fine = label.startswith("fine:")
     rec = {"k": "ok", "t": "", "s1": rel_form(s1), "s2": rel_form(s2), "tol": mil(tol), "A": [], "expect": expect,
            "fine": 0, "E": []}
@@ -138,7 +145,7 @@ def job(j):
         # large coordinates / small tolerance: coordinates x 10^4, linear part x 10^8, translation x 10^4
         rec.update({"fine": 1, "s1": rel_form(s1, 10000), "s2": rel_form(s2, 10000), "tol": int(round(tol * 10000))})
     try:
-        A = affine_between(SVGPath(d=d_of(s1)), SVGPath(d=d_of(s2)), tol)
+        A = affine_between(SVGPath(d=d1), SVGPath(d=d2), tol)
         if A is not None and fine:
             rec["A"] = [int(round(v * 10 ** 8)) for v in A[:4]]
             rec["E"] = [int(round(A[4] * 10 ** 4)), int(round(A[5] * 10 ** 4))]
@@ -212,6 +219,34 @@ def jobs_for(tier, rng):
             if a != b:
                 for tol in tols:
                     jobs.append((SHAPES[a], SHAPES[b], tol, "any", "%s vs %s" % (a, b)))
+    # the same outline at the same place, spelled differently (H/V, relative commands): still the identity,
+    # also for thin shapes none of whose edges is "significant" in x
+    def respell(shape):
+        parts = []
+        for start, segs in shape:
+            parts.append("M%r,%r" % (float(start[0]), float(start[1])))
+            cur = start
+            for sg in segs:
+                if sg[0] == "Z":
+                    parts.append("z")
+                    continue
+                if sg[0] == "L" and sg[1][0] == cur[0]:
+                    parts.append("v%r" % float(sg[1][1] - cur[1]))
+                elif sg[0] == "L" and sg[1][1] == cur[1]:
+                    parts.append("H%r" % float(sg[1][0]))
+                elif sg[0] == "L":
+                    parts.append("l%r,%r" % (float(sg[1][0] - cur[0]), float(sg[1][1] - cur[1])))
+                else:
+                    return None
+                cur = sg[1]
+        return " ".join(parts)
+    thin = {"vbar": [((5, 1), [("L", (5, 9))])], "hair": [((5, 1), [("L", (5, 9)), ("L", (F(51, 10), 9)), ("L", (F(51, 10), 1)), ("Z",)])],
+            "ell": SHAPES["ell"], "zig": SHAPES["zig"]}
+    for n, sh in thin.items():
+        d2 = respell(sh)
+        if d2:
+            for tol in tols + [0.5]:
+                jobs.append((sh, sh, tol, "identity-or-any", "%s=respelled" % n, d_of(sh), d2))
     # the fine regime: coordinates up to ~1000, tolerance 0.001, transforms with irrational entries (no
     # short decimal rounding of the matrix is exact, so the library's own verification of its roundings
     # is what keeps the result sound)
